@@ -3,6 +3,7 @@
 //! orchestrator evaluates against the reference model with `coqc`.
 mod answers;
 mod ridiff;
+mod rwdiff;
 mod util;
 mod world;
 
@@ -12,6 +13,7 @@ fn main() {
     match a.engine.as_str() {
         "ridiff" => ridiff::run(&a),
         "answers" => answers::run(&a),
+        "rwdiff" => rwdiff::run(&a),
         "answers-child" => std::process::exit(answers::child(&a)),
         other => {
             eprintln!("unknown engine {other}");
